@@ -58,8 +58,14 @@ def sumBatchDenseB {m n : Nat} (k : Nat) (base : BMat α m n) : BMat α m n := f
 /-- A batched operator TREE (every member a tree of the same outer sizes — e.g. a Kronecker product whose factors
 were expanded to the common batch shape by the constructor) times a batched rhs: both are expanded to the broadcast
 batch shape and the structured code runs per member. -/
-def treeMatmulB {n m c : Nat} (sA : List Nat) (t : List Nat → Op α n m) (sB : List Nat) (X : BMat α m c) : BMat α n c :=
+def treeMatmulB [One α] {n m c : Nat} (sA : List Nat) (t : List Nat → Op α n m) (sB : List Nat) (X : BMat α m c) : BMat α n c :=
   fun idx => (t (restrict sA idx)).eval.mm (X (restrict sB idx))
+
+/-- the same for `_t_matmul` / `op.mT @ Y` and for `Y @ op` (`rmatmul`: `self.mT.matmul(other.mT).mT`, member by member). -/
+def treeTMatmulB [One α] {n m c : Nat} (sA : List Nat) (t : List Nat → Op α n m) (sB : List Nat) (Y : BMat α n c) : BMat α m c :=
+  fun idx => (t (restrict sA idx)).eval.tmm (Y (restrict sB idx))
+def treeRmatmulB [One α] {n m p : Nat} (sA : List Nat) (t : List Nat → Op α n m) (sB : List Nat) (Y : BMat α p n) : BMat α p m :=
+  fun idx => rmatmul (t (restrict sA idx)).eval (Y (restrict sB idx))
 
 /-- `CatLinearOperator._matmul`, concatenation along batch position `d` (`cat_dim < -2`): the rhs (already expanded
 to the output batch shape) is narrowed to the slice of each operand along that dim, multiplied, and the results are
